@@ -602,6 +602,29 @@ def any_all_short_circuit_generators():
         return v
     r = any(mark(v) for v in [0, 1, 2])
     return r, seen
+
+def generator_function_and_yield_from():
+    def ends(pairs):
+        for a, b in pairs:
+            yield a
+            yield b
+    def both():
+        yield from ends([(1, 2)])
+        yield 3
+    g = both()
+    first = list(g)
+    return first, list(g), list(ends([(5, 6), (7, 8)]))
+
+def generator_function_accumulate_vs_assign():
+    def ends():
+        yield (0, 1)
+        yield (0, 2)
+        yield (1, 5)
+    acc, last = {}, {}
+    for k, v in ends():
+        acc[k] = acc.get(k, 0) + v
+        last[k] = v
+    return acc, last
 '''
 
 
